@@ -335,6 +335,9 @@ static Boolean LayoutNibble(tStrComp const* pExpr, struct sLayoutCtx* pCtx) {
     case TempString:
         WrStrErrorPos(ErrNum_IntButString, pExpr);
         break;
+    case TempReg:
+        WrStrErrorPos(ErrNum_ExpectInt, pExpr);
+        break;
     default:
         break;
     }
@@ -457,6 +460,9 @@ static Boolean LayoutByte(tStrComp const* pExpr, struct sLayoutCtx* pCtx) {
         Result = True;
         break;
     }
+    case TempReg:
+        WrStrErrorPos(ErrNum_ExpectIntOrString, pExpr);
+        break;
     default:
         break;
     }
@@ -598,6 +604,9 @@ static Boolean LayoutWord(tStrComp const* pExpr, struct sLayoutCtx* pCtx) {
         Result = True;
         break;
     }
+    case TempReg:
+        WrStrErrorPos(ErrNum_ExpectIntOrString, pExpr);
+        break;
     default:
         break;
     }
